@@ -129,6 +129,16 @@ def run(ctx):
         found = []
         nsoracles.oracle_c12(b, lambda sig, text, extra: found.append((sig, text)), hy)
         sysimg.oracle_c04(b, lambda sig, text, extra: found.append((sig, text)) if sig.startswith(('overlap', 'length')) else None)
+        # the unchanged library pads only to a whole cylinder: when that padding is smaller than the backup GPT (16896 bytes) the
+        # backup GPT is written over the tail of the volume -- one known defect, whatever structures it happens to hit
+        pad = len(img) - (b.rd.pvd['space_size'] * 2048 if b.rd is not None else len(img))
+        if (hy.get('efi') or hy.get('mac')) and 0 <= pad < 16896:
+            tail = [f for f in found if 'gpt-backup' in f[0] or 'gpt-backup' in f[1] or f[0].startswith(('rule:udf-anchor', 'hybrid-changes-iso', 'rule:gpt-'))]
+            if tail:
+                found = [f for f in found if f not in tail]
+                ctx.violation('c12:gpt-backup-overwrites-volume-tail', 'C12: the cylinder padding (%d bytes) is smaller than the backup GPT (16896 bytes), '
+                              'which is therefore written over the end of the volume: %s' % (pad, tail[0][1][:200]),
+                              {'new': kw, 'hybrid': hy, 'files': files, 'second': second, 'signature': 'gpt-backup-overwrites-volume-tail'})
         for sig, text in found[:3]:
             cls = '+'.join(sorted(k for k in hy if k in ('efi', 'mac'))) or 'mbr'
             ctx.violation('c12:%s:%s%s' % (sig, cls, ':two-writes' if second else ''),
